@@ -151,8 +151,33 @@ def lmStates : List State → List StepOut → List Nat → List (List Nat)
     sts :: lmStates bs os (routeStates 0 sts (lmInNext hashLM 0 b sts) o.src o.isNon)
   | _, _, _ => []
 
+/-- a language model given as a table prefix ↦ row of LM factors (the values after the module's
+`softmax` / `exp(beta · log_softmax)`, handed over by the harness), as a `CtcPrefix.LM` without state:
+column `col`, index `idx` ↦ the row of the prefix `col[:idx]` -/
+def tableLM (tab : List (List Nat × List XR)) : LM Unit :=
+  { run := fun idx col _ => ((tab.lookup (col.take idx)).getD [], ()) }
+
+def parseFactorRow (e : Json) : Except String (List Nat × List XR) := do
+  let arr ← e.getArr?
+  match arr.toList with
+  | [p, row] => do
+    let p ← jsonToList jsonToNat p
+    let row ← jsonToList jsonToXR row
+    pure (p, row)
+  | _ => throw "lm_factor entry must be [prefix, row]"
+
+/-- `ext_probs_t` of the element at every call, by the model's `lmExt` (fusion formula `fuse` with the
+mixture weight `mix` = the module's CURRENT `beta` when `valid_mixture`, `none` for plain fusion) on the
+model's own states -/
+def lmExts (V : Nat) (mix : Option Rat) : List State → List FrameIn → List (List (List Nat × List XR)) →
+    List (List (List XR))
+  | st :: sts, f :: fs, tab :: tabs =>
+    lmExt V mix (tableLM tab) () f.nonext f.blank st [] :: lmExts V mix sts fs tabs
+  | _, _, _ => []
+
 /-- One batch element. common: {fix, V, width, spec?}; element: {len, frames:[{ext,nonext,blank,sel?}],
-init?: state, ext_table?: per frame [[prefix,[row]]..], keeps?: per frame [prefix..]}. -/
+init?: state, ext_table?: per frame [[prefix,[row]]..], keeps?: per frame [prefix..],
+lm_factor?: per frame [[prefix,[LM factor per token]]..], mix?: "n/d" | null}. -/
 def c05Elem (fix : Bool) (V width : Nat) (wantSpec : Bool) (c : Json) : Except String Json := do
   let len ← getNat c "len"
   let frames ← getList parseFrame c "frames"
@@ -171,8 +196,18 @@ def c05Elem (fix : Bool) (V width : Nat) (wantSpec : Bool) (c : Json) : Except S
           (lmStates (st0 :: (steps.map (·.1)).dropLast) (steps.map (·.2)) [h0])
       | .error _ => Json.null
     | none => Json.null
+  let mix : Option Rat ← match fieldOpt c "mix" with
+    | none => pure none
+    | some .null => pure none
+    | some j => some <$> jsonToRat j
+  let extJ : Json ← match fieldOpt c "lm_factor" with
+    | none => pure Json.null
+    | some j => do
+      let tabs ← jsonToList (jsonToList parseFactorRow) j
+      pure (listJ (listJ (listJ xrToJson)) (lmExts V mix (st0 :: (steps.map (·.1)).dropLast) frames tabs))
   let modelJ := objJ [
     ("lm_states", lmJ),
+    ("lm_ext", extJ),
     ("result", objJ [("prefixes", listJ prefJ res.prefixes), ("lens", listJ natJ res.lens),
                      ("probs", listJ xrToJson res.probs)]),
     ("steps", Json.arr ((steps.zip widths).map (fun ((s, o), w) => stepJson V w s o)).toArray)]
